@@ -22,9 +22,9 @@ func init() {
 		"fmt.Printf":   noop,
 		"fmt.Println":  noop,
 		"fmt.Print":    noop,
-		"fmt.Fprintf":  noop2,
-		"fmt.Fprintln": noop2,
-		"fmt.Fprint":   noop2,
+		"fmt.Fprintf":  fmtFprintf,
+		"fmt.Fprintln": fmtFprintln,
+		"fmt.Fprint":   fmtFprint,
 		"log.Printf":   noop,
 		"log.Println":  noop,
 		"log.Print":    noop,
@@ -42,6 +42,7 @@ func init() {
 		"internal/bytealg.Equal":                bytealgEqual,
 		"internal/bytealg.Compare":              bytealgCompare,
 		"internal/stringslite.IndexByte":        bytealgIndexByteString,
+		"internal/bytealg.MakeNoZero":           bytealgMakeNoZero,
 		"(*strings.Builder).copyCheck":          noop,
 		"internal/race.ReadRange":               noop,
 		"internal/race.WriteRange":              noop,
@@ -104,6 +105,10 @@ func (e *Exec) goValue(st *State, v Value) interface{} {
 		}
 		if t, ok := x.V.(*term.Term); ok {
 			if !t.IsConst() {
+				if e.fmtStrict {
+					panic(&concretizeReq{t})
+				}
+				e.Stubs["fmt: symbolic argument rendered as ?"]++
 				return "?"
 			}
 			w, signed, _ := intWidth(x.T)
@@ -125,6 +130,10 @@ func (e *Exec) goValue(st *State, v Value) interface{} {
 			if s.IsConcrete() {
 				return s.Concrete()
 			}
+			if e.fmtStrict {
+				panic(&concretizeReq{e.someSymbolicPart(s)})
+			}
+			e.Stubs["fmt: symbolic argument rendered as ?"]++
 			return "?"
 		}
 		if p, ok := x.V.(*PtrV); ok && p.Obj != 0 {
@@ -146,7 +155,7 @@ func (e *Exec) goValue(st *State, v Value) interface{} {
 func (e *Exec) formatArgs(st *State, format string, sl *SliceV, plain bool) string {
 	var goargs []interface{}
 	for i := 0; i < sl.Len; i++ {
-		goargs = append(goargs, e.goValue(st, e.sliceElem(st, sl, i)))
+		goargs = append(goargs, e.goValue(st, e.substConc(st, e.sliceElem(st, sl, i))))
 	}
 	if plain {
 		return fmt.Sprint(goargs...)
@@ -325,4 +334,81 @@ func bytealgCompare(e *Exec, st *State, f *Frame, fn *ssa.Function, args []Value
 		acc = e.ts.Ite(e.ts.Eq(a[i], b[i]), acc, e.ts.Ite(e.ts.Cmp(term.OpUlt, a[i], b[i]), k(-1), k(1)))
 	}
 	return acc
+}
+
+// fprintTo delivers text to an io.Writer value: *strings.Builder and *bytes.Buffer receive it through
+// their own WriteString method (interpreted); any other writer drops it (logging / stderr).
+func (e *Exec) fprintTo(st *State, f *Frame, fn *ssa.Function, w Value, text string) Value {
+	res := &TupleV{E: []Value{e.ts.Const(64, uint64(len(text))), nilIface}}
+	iv, ok := w.(*IfaceV)
+	if !ok || iv.T == nil {
+		return res
+	}
+	ts := iv.T.String()
+	if ts != "*strings.Builder" && ts != "*bytes.Buffer" {
+		return res
+	}
+	var m *ssa.Function
+	for _, p := range e.prog.AllPackages() {
+		if (p.Pkg.Path() == "strings" && ts == "*strings.Builder") || (p.Pkg.Path() == "bytes" && ts == "*bytes.Buffer") {
+			m = e.prog.LookupMethod(iv.T, p.Pkg, "WriteString")
+		}
+	}
+	if m == nil {
+		unsupported("no WriteString for %s", ts)
+	}
+	call := f.block.Instrs[f.pc]
+	e.pushFrame(st, m, []Value{iv.V, &StringV{S: text}}, nil, retNormal)
+	st.top().cont = &funcCont{fn: func(st *State, caller *Frame, _ Value) {
+		if v, ok := call.(ssa.Value); ok {
+			e.set(caller, v, res)
+		}
+		caller.pc++
+	}}
+	return &pendingCall{}
+}
+
+func fmtFprintf(e *Exec, st *State, f *Frame, fn *ssa.Function, args []Value) Value {
+	fs := args[1].(*StringV)
+	format := "?"
+	if fs.IsConcrete() {
+		format = fs.Concrete()
+	}
+	e.fmtStrict = e.isBufferWriter(args[0])
+	defer func() { e.fmtStrict = false }()
+	return e.fprintTo(st, f, fn, args[0], e.formatArgs(st, format, args[2].(*SliceV), false))
+}
+
+func fmtFprint(e *Exec, st *State, f *Frame, fn *ssa.Function, args []Value) Value {
+	e.fmtStrict = e.isBufferWriter(args[0])
+	defer func() { e.fmtStrict = false }()
+	return e.fprintTo(st, f, fn, args[0], e.formatArgs(st, "", args[1].(*SliceV), true))
+}
+
+func fmtFprintln(e *Exec, st *State, f *Frame, fn *ssa.Function, args []Value) Value {
+	sl := args[1].(*SliceV)
+	e.fmtStrict = e.isBufferWriter(args[0])
+	defer func() { e.fmtStrict = false }()
+	var goargs []interface{}
+	for i := 0; i < sl.Len; i++ {
+		goargs = append(goargs, e.goValue(st, e.substConc(st, e.sliceElem(st, sl, i))))
+	}
+	return e.fprintTo(st, f, fn, args[0], fmt.Sprintln(goargs...))
+}
+
+func (e *Exec) isBufferWriter(w Value) bool {
+	iv, ok := w.(*IfaceV)
+	if !ok || iv.T == nil {
+		return false
+	}
+	ts := iv.T.String()
+	return ts == "*strings.Builder" || ts == "*bytes.Buffer"
+}
+
+func bytealgMakeNoZero(e *Exec, st *State, f *Frame, fn *ssa.Function, args []Value) Value {
+	n := e.concreteInt(st, args[0])
+	if n < 0 || n > 1<<24 {
+		unsupported("MakeNoZero(%d)", n)
+	}
+	return e.makeSlice(st, types.Typ[types.Byte], n, n)
 }
